@@ -1,10 +1,183 @@
+import CentrifugeVerif.Proofs.RedisAddStream
 import CentrifugeVerif.Model.RedisGlue
-/-! C18 — Redis and Memory stream brokers agree (theorems; under construction). -/
+/-!
+# C18 — Redis and Memory stream brokers agree (Redis half: theorems about the translated scripts)
+
+Level: **partial**.  What is proved here, for *all* keys, argument strings and Redis states (of the
+trusted Redis/Lua model), about the translated `broker_history_add_stream.lua`:
+
+* `redis_idempotent_hit` — a publish whose result key still holds `e` returns the stored offset and epoch
+  with the from-cache flag and leaves the Redis state **unchanged** (no XADD, no HINCRBY, no PUBLISH,
+  no TTL refresh);
+* `redis_idempotent_miss_reaches_epoch_step`, `redis_epoch_kept`, `redis_epoch_created` — without a hit
+  the script continues with the stored epoch, creating it (field `e := new_epoch_if_empty`) only when
+  the meta hash has none: an existing epoch is never replaced;
+* `redis_version_suppressed` — with version `≠ "0"`, a stored version `v`, matching (or empty) version
+  epoch and `tonumber v ≥ tonumber version` the reply is `{offset, epoch, "0", "1"}` and the state is
+  **unchanged**;
+* `redis_unversioned_skips_version_step` — `version = "0"` never reads or writes `v`/`ve`
+  (the memory broker used to overwrite its top version with 0: finding C18-5, fixed in /repo by a5ec69f4).
+
+The agreement with the memory broker itself ("same offsets, publications, suppression outcomes and
+stream positions") is **not** proved in Lean: it is checked by the differential run of `props/C18/check.py`
+(translated scripts + Redis model + Go-glue model vs. the real `MemoryBroker`).  The full statement
+would be
+`theorem redis_stream_sim_memory : ∀ ops, Agree (runRedis ops) (HistoryHub.runOut mem ops)`
+for op sequences outside the eleven listed differences; what is missing is the store path
+(`HINCRBY`/`XADD MAXLEN`/`EXPIRE`/`PUBLISH`) as a closed form and the simulation relation over TTLs.
+
+The decided examples at the end are the Lean halves of the findings (the differences are real
+under the property text; each is replayed on the real memory broker by the check).
+-/
 namespace CentrifugeVerif.C18
-open CentrifugeVerif.Lua
+open CentrifugeVerif CentrifugeVerif.Redis CentrifugeVerif.Lua CentrifugeVerif.LuaRedis CentrifugeVerif.Gen.Lua
+open CentrifugeVerif.AddStream
+
+/-- Idempotency within the result TTL: original position, from-cache flag, nothing stored. -/
+theorem redis_idempotent_hit (sk mk rk : String) (a : AddArgs) (s : Redis) (h : List (String × String))
+    (ep : String) (hrexp : a.rexp ≠ "") (hk : HashAt s rk h) (he : hlookup h "e" = some ep) :
+    run (broker_history_add_stream (keysT sk mk rk) a.argv) s
+      = (.ok (.tbl [respToLua (optBulk (hlookup h "s")), .str ep, .str "1", .str "0"]), s) := by
+  rw [script_eq_p1]; exact p1_hit sk mk rk a s h ep hrexp hk he
+
+/-- Without a cached result (no idempotency key, or the result key expired / holds no `e`) the script
+goes on to the epoch step with the state untouched. -/
+theorem redis_idempotent_miss_reaches_epoch_step (sk mk rk : String) (a : AddArgs) (s : Redis)
+    (h : List (String × String)) (hk : HashAt s rk h) (hmiss : a.rexp = "" ∨ hlookup h "e" = none) :
+    run (broker_history_add_stream (keysT sk mk rk) a.argv) s = run (P2 sk mk rk a) s := by
+  rw [script_eq_p1]; exact p1_miss sk mk rk a s h hk hmiss
+
+/-- An existing epoch is kept (and nothing is written by the epoch step). -/
+theorem redis_epoch_kept (sk mk rk : String) (a : AddArgs) (s : Redis) (hm : List (String × String)) (e : String)
+    (hk : HashAt s mk hm) (he : hlookup hm "e" = some e) :
+    run (P2 sk mk rk a) s = run (P4 sk mk rk a (.str e)) s :=
+  p2_epoch_present sk mk rk a s hm e hk he
+
+/-- The epoch is created exactly when the meta hash has none, from `new_epoch_if_empty`. -/
+theorem redis_epoch_created (sk mk rk : String) (a : AddArgs) (s : Redis) (hm : List (String × String))
+    (hk : HashAt s mk hm) (he : hlookup hm "e" = none) :
+    run (P2 sk mk rk a) s = run (P4 sk mk rk a (.str a.fresh)) (putHash s mk (hset1 hm "e" a.fresh)) :=
+  p2_epoch_absent sk mk rk a s hm hk he
+
+/-- Version suppression rule, and "a suppressed publish changes nothing" on the Redis side. -/
+theorem redis_version_suppressed (sk mk rk : String) (a : AddArgs) (s : Redis)
+    (hr hm : List (String × String)) (ep pv : String) (x y n : Int)
+    (hrk : HashAt s rk hr) (hmiss : a.rexp = "" ∨ hlookup hr "e" = none)
+    (hmk : HashAt s mk hm) (he : hlookup hm "e" = some ep)
+    (hver : a.ver ≠ "0") (hv : hlookup hm "v" = some pv)
+    (hep : a.vep = "" ∨ hlookup hm "ve" = some a.vep)
+    (hx : tonumber (.str pv) = .ok (.num x)) (hy : tonumber (.str a.ver) = .ok (.num y)) (hle : y ≤ x)
+    (hoff : suppressedOffset hm = .ok (.num n)) :
+    run (broker_history_add_stream (keysT sk mk rk) a.argv) s
+      = (.ok (.tbl [.num n, .str ep, .str "0", .str "1"]), s) := by
+  rw [redis_idempotent_miss_reaches_epoch_step sk mk rk a s hr hrk hmiss,
+    redis_epoch_kept sk mk rk a s hm ep hmk he]
+  exact p4_suppressed sk mk rk a s hm ep pv x y n hmk hver hv hep hx hy hle hoff
+
+/-- An unversioned publish does not touch the stored version. -/
+theorem redis_unversioned_skips_version_step (sk mk rk : String) (a : AddArgs) (s : Redis) (ep : LVal)
+    (hver : a.ver = "0") : run (P4 sk mk rk a ep) s = run (P5 sk mk rk a ep) s :=
+  p4_unversioned sk mk rk a s ep hver
+
+/-! ### the hypotheses are satisfiable: a concrete state and call -/
+
+/-- a Redis state after one stored publication with version 5 and idempotency key result -/
+def demo : Redis :=
+  { db := fun k =>
+      if k = "m" then some ⟨.hash [("e", "E1"), ("v", "5"), ("ve", ""), ("s", "1")], none⟩
+      else if k = "r" then some ⟨.hash [("e", "E1"), ("s", "1")], some 300000⟩
+      else if k = "s" then some ⟨.stream [⟨1, 0, ["d", "p1"]⟩] 1 0, some 10000⟩
+      else none,
+    now := 1000 }
+
+def demoArgs (rexp ver : String) : AddArgs :=
+  ⟨"p2", "3", "10", "chan", "0", "E9", "publish", rexp, "", ver, ""⟩
+
+example : HashAt demo "r" [("e", "E1"), ("s", "1")] ∧ hlookup [("e", "E1"), ("s", "1")] "e" = some "E1" :=
+  ⟨rfl, rfl⟩
+example : HashAt demo "m" [("e", "E1"), ("v", "5"), ("ve", ""), ("s", "1")] := rfl
+example : tonumber (.str "5") = .ok (.num 5) ∧ tonumber (.str "3") = .ok (.num 3) ∧
+    suppressedOffset [("e", "E1"), ("v", "5"), ("ve", ""), ("s", "1")] = .ok (.num 1) := ⟨rfl, rfl, rfl⟩
+
+/-! ### general facts about the number model the findings rest on -/
 
 /-- Lua formats integer-valued numbers below 10^14 exactly (`"%.14g"`). -/
 theorem fmtG14_exact (n : Nat) (h : n < 100000000000000) : fmtG14 (n : Int) = toString n := by
   simp [fmtG14, h]
+
+/-- … and not beyond: offsets from 10^15 on would be written in exponent notation into the PUB/SUB
+and list payloads (`"__p1:" .. top_offset`). -/
+example : fmtG14 1000000000000000 = "1e+15" := by decide
+
+/-! ### Lean halves of the findings (decided on the witnesses) -/
+
+/-- C18-3: versions are compared as doubles: 2^53 and 2^53+1 are the same number for the script. -/
+theorem version_collision_above_2_53 :
+    tonumber (.str "9007199254740993") = tonumber (.str "9007199254740992") := by rfl
+
+/-- C18-4: `strconv.Itoa(int(v))` turns 2^63 into a negative numeral. -/
+theorem version_int_wrap : RedisGlue.itoaU64 9223372036854775808 = "-9223372036854775808" := by decide
+
+section witnesses
+open RedisGlue
+set_option maxRecDepth 100000
+
+def pubOut (x : Except GoErr PubRes × Redis) : Option (Nat × String × Suppress) :=
+  match x.1 with
+  | .ok p => some (p.pos.offset, p.pos.epoch, p.suppress)
+  | .error _ => none
+
+def opts (ver : Nat) : POpts := { size := 3, ttl := 600000, version := ver }
+
+/-- C18-3 on the translated script: after version 2^53, version 2^53+1 is suppressed. -/
+example :
+    let r1 := (publish {} "a" "d1" (opts 9007199254740992) "E1" 1000 {}).2
+    pubOut (publish {} "a" "d2" (opts 9007199254740993) "E2" 1001 r1) = some (1, "E1", .version) := by decide
+
+/-- C18-5 (Redis half): an unversioned publish keeps `v`; version 3 after 5, 0 is suppressed. -/
+example :
+    let r1 := (publish {} "a" "d1" (opts 5) "E1" 1000 {}).2
+    let r2 := (publish {} "a" "d2" (opts 0) "E2" 1001 r1).2
+    pubOut (publish {} "a" "d3" (opts 3) "E3" 1002 r2) = some (2, "E1", .version) := by decide
+
+/-- C18-2: list storage has no version suppression at all. -/
+example :
+    let c : Cfg := { useLists := true }
+    let r1 := (publish c "a" "d1" (opts 5) "E1" 1000 {}).2
+    pubOut (publish c "a" "d2" (opts 3) "E2" 1001 r1) = some (2, "E1", .none) := by decide
+
+/-- C18-7: idempotency key first used without history, then with history: the Go side fails. -/
+example :
+    let o0 : POpts := { idemKey := "k" }
+    let r1 := (publish {} "a" "d1" o0 "E1" 1000 {}).2
+    (publish {} "a" "d2" { size := 3, ttl := 600000, idemKey := "k" } "E2" 1001 r1).1
+      = .error (.wrongReply "offset") := by rfl
+
+def histOut (x : Except GoErr (List RPub × RPos) × Redis) : Option (List Nat × Nat × String) :=
+  match x.1 with
+  | .ok (pubs, pos) => some (pubs.map (·.offset), pos.offset, pos.epoch)
+  | .error _ => none
+
+/-- C18-8: reverse read with `since` beyond the top returns the stream on Redis. -/
+example :
+    let r1 := (publish {} "a" "d1" (opts 0) "E1" 1000 {}).2
+    histOut (history {} "a" { since := some ⟨4, "E1"⟩, limit := -1, reverse := true } 0 "E2" 1001 r1)
+      = some ([1], 1, "E1") := by decide
+
+/-- C18-1: list storage ignores `Reverse`. -/
+example :
+    let c : Cfg := { useLists := true }
+    let r1 := (publish c "a" "d1" (opts 0) "E1" 1000 {}).2
+    let r2 := (publish c "a" "d2" (opts 0) "E2" 1001 r1).2
+    histOut (history c "a" { limit := -1, reverse := true } 0 "E3" 1002 r2) = some ([1, 2], 2, "E1") := by decide
+
+/-- C18-11: meta TTL 3 s < history TTL 10 s: after 4 s a read returns the old entry under a new epoch
+with top offset 0. -/
+example :
+    let o : POpts := { size := 3, ttl := 10000, metaTTL := 3000 }
+    let r1 := (publish {} "a" "d1" o "E1" 1000 {}).2
+    histOut (history {} "a" { limit := -1 } 3000 "E2" 5000 r1) = some ([1], 0, "E2") := by decide
+
+end witnesses
 
 end CentrifugeVerif.C18
